@@ -257,6 +257,14 @@ def long_strings(ctx):
                 out.append(('x %s "%s"' % (op, base), obj({'x': S(a)}), 'long-string'))
                 if name in ('tail', 'head', 'inner', 'kelvin', 'upper'):
                     out.append(('x %s "%s"' % (op, a), obj({'x': S(base)}), 'long-string'))
+        # multi-byte characters at and around the n-th byte: same lead byte, different continuation byte (e-acute / e-grave,
+        # hiragana a / small i / i), also against their capitals
+        for pos in (n - 2, n - 1, n):
+            for c1, c2 in (('\u00e9', '\u00e8'), ('\u00c9', '\u00e8'), ('\u3042', '\u3043'), ('\u3042', '\u3044'), ('\U0001f600', '\U0001f601'), ('\u00e9', '\u00c9')):
+                s1, s2 = 'a' * pos + c1 + 'tail', 'a' * pos + c2 + 'tail'
+                for op in (ops if not ctx.quick else ['eq', 'ne', 'lt', 'gt', 'le', 'ge', 'ew']):
+                    out.append(('x %s "%s"' % (op, s1), obj({'x': S(s2)}), 'long-string'))
+                out.append(('x %s "%s"' % ('gt', s2 + 'a'), obj({'x': S(s1 + 'z')}), 'long-string'))
         out.append(('x in ["%s", "%s"]' % (variants['last'], base.upper()), obj({'x': S(base)}), 'long-string'))
         out.append(('x eq "%s"' % base, obj({'x': ('str', base.upper().encode())}), 'long-string'))
     return out
@@ -293,4 +301,18 @@ def long_tokens(ctx):
                 'x eq %s.1.2' % digits, 'x eq 1.2.%s' % digits, 'x eq "%s"' % name, 'x eq "%s' % name, 'x in [%s]' % ', '.join(['1'] * n), 'x in [%s]' % ','.join(['"a"'] * n),
                 'x eq 1 %sand y eq 2' % ('\n' * n), 'x in [1,%s2]' % (' ' * n), 'x eq 0%s' % digits, 'x eq %s.' % digits, '%s' % name, '%s.' % name, '.%s pr' % name,
                 'x eq 1.0e%s' % digits[:min(n, 400)], 'x%seq 1' % (' ' * min(n, 40)), '%s x eq 1' % ('(' * n), 'x eq 1 %s' % (')' * n)]
+    return out
+
+def string_pairs(ctx):
+    """(literal, attribute) pairs of long strings for six-operator vectors: equal, differing far inside, differing in a
+    continuation byte of a multi-byte character at and around the 16th ... 256th byte"""
+    out = []
+    for n in _sizes(ctx, [16, 32, 64, 65, 128, 256], [1024]):
+        base = ''.join('abcdefghij'[i % 10] for i in range(n))
+        out += [(base, base), (base, base.upper()), (base, base[:-1] + 'z'), (base[:-1] + 'z', base), (base, base[:n // 2] + 'Z' + base[n // 2 + 1:]),
+                (base, base + 'a'), (base + 'a', base), (base, 'z' + base[1:])]
+        for pos in (n - 2, n - 1, n):
+            for c1, c2 in (('é', 'è'), ('É', 'è'), ('あ', 'ぃ'), ('あ', 'い'), ('é', 'É'), ('éz', 'êa')):
+                out.append(('a' * pos + c1 + 'tail', 'a' * pos + c2 + 'tail'))
+                out.append(('a' * pos + c2 + 'tail', 'a' * pos + c1 + 'tail'))
     return out
